@@ -11,7 +11,7 @@ from vlib import log
 
 def fmt_op(o):
     k = o["k"]
-    if k in ("spawn", "spawn_named", "join", "unpark", "panic"):
+    if k in ("spawn", "spawn_named", "sspawn", "join", "unpark", "panic"):
         return f"{k}({o['v']})"
     if k in ("lock", "try_lock", "read", "write", "try_read", "try_write"):
         return f"{k}(o{o['o']},g{o['w']})"
@@ -19,7 +19,7 @@ def fmt_op(o):
         return f"{k}(g{o['w']})"
     if k == "cv_wait":
         return f"cv_wait(cv{o['o']},m{o['v']},g{o['w']})"
-    if k in ("yield", "spin", "sleep", "park", "nop", "rand", "reset_steps"):
+    if k in ("yield", "spin", "sleep", "park", "nop", "rand", "reset_steps", "scope_begin", "scope_end", "tid", "name", "me"):
         return k
     return f"{k}(o{o['o']},v{o['v']},w{o['w']})"
 
@@ -121,7 +121,7 @@ def family_pipeline(fam, progs, outdir, cap=20000, do_mc=True, workers=8, max_di
             rets = b["returns"]
             exp_max = b["budget"]
             bad = None
-            if b["sched"] in ("random", "urw", "pct", "rr"):
+            if b["sched"] in ("random", "urw", "pct", "rr", "stopper"):
                 if b["execs"] != exp_max:
                     bad = f"{b['execs']} executions under an iteration budget of {exp_max}"
             elif b["execs"] > exp_max:
@@ -243,6 +243,16 @@ def S(fam, q, t):
 
 
 SHUTTLE_PROPS = {
+    "C07": {"stages": [F("ident", 24, 200, mc=False), F("tls", 30, 300, mc=False), F("scope", 24, 200, mc=False),
+                       F("kernel", 14, 150)],
+            "assume": ["thread-local destructor behaviour (reads another key / yields while dropping) is configured per program",
+                       "scope returns once every scoped closure has returned (as in std, thread-local destructors of scoped threads may still be pending)"]},
+    "C14": {"stages": [S("statics", 12, 120), S("tls", 12, 120), S("ident", 8, 80), S("scope", 8, 80), S("bounds", 12, 100),
+                       S("once", 8, 80), S("corpus_deadlock", 0, 0), F("statics", 16, 150, mc=False)],
+            "kinds": {"replay-mismatch", "trace-rejected", "invariant-violated", "nondeterminism", "harness-crash", "tlc-error"},
+            "assume": ["every iteration of a multi-iteration run is validated from the specification's initial state (task ids from 0, statics/Once/lazy/TLS uninitialised, step counter 0)",
+                       "predecessor kinds: completed, abandoned by a None-returning scheduler, abandoned by ContinueAfter, failed (deadlock/panic, caught)",
+                       "memory-level isolation (recycled stacks) is only observed through behaviour and drop counters"]},
     "C13": {"stages": [F("bounds", 40, 400, mc=False), S("bounds", 16, 150), S("kernel", 8, 60)],
             "kinds": {"trace-rejected", "invariant-violated", "budget-mismatch", "nondeterminism", "harness-crash", "tlc-error"},
             "assume": ["steps = schedule entries (decisions + random draws) since the last reset_step_count",
@@ -485,6 +495,96 @@ def run_c09(tier):
     return finish("C09", tier, t0, spec, totals, [], problems, [sample] if sample else [{"note": "no sample"}], known, extra_cov=extra)
 
 
+def run_c10(tier):
+    """Random schedulers: seed determinism, per-iteration reproducibility, seed chain against an
+    independent Pcg64Mcg, coverage of tiny trees, position frequencies against the uniform law."""
+    import math
+    t0 = time.time()
+    vlib.build_harness()
+    known = vlib.load_known()
+    n = 6 if tier == "quick" else 40
+    iters = 60 if tier == "quick" else 400
+    progs = []
+    for fam in ("kernel", "kernel_rand", "mutex", "condvar", "mpsc", "park"):
+        for p in gen.family(fam, n, vlib.seed()):
+            p = dict(p)
+            p["id"] = len(progs) + 1
+            progs.append(p)
+    out = os.path.join(vlib.WORK, f"run-c10-{tier}")
+    meta, _ = vlib.run_enum(progs, out, cap=400, extra=("--mode", "rand", "--iters", str(iters), "--seed", str(vlib.seed())))
+    by_id = {p["id"]: p for p in progs}
+    problems = []
+    freq = {}
+    ufreq = {}
+    curc = {}
+    nexec = repro = 0
+    for m in meta:
+        if m.get("crashed"):
+            problems.append({"kind": "harness-crash", "prog": by_id[m["prog"]], "stderr": m["stderr"], "sig": "random/harness-crash"})
+            continue
+        nexec += m["execs"]
+        repro += m["reproduced"]
+        for pr in m["problems"]:
+            problems.append({"kind": "random-scheduler", "prog": by_id[m["prog"]], "detail": pr,
+                             "sig": f"random/{pr['kind']}/{pr.get('sched', 'random')}"})
+        for l, pos, c in m["freq"]:
+            freq[(l, pos)] = freq.get((l, pos), 0) + c
+        for l, pos, c in m.get("urw_freq", []):
+            ufreq[(l, pos)] = ufreq.get((l, pos), 0) + c
+        for l, a, b in m["cur_chosen"]:
+            x = curc.get(l, (0, 0))
+            curc[l] = (x[0] + a, x[1] + b)
+    # uniformity: Hoeffding bound at 1e-9 per cell
+    table = []
+    decisions = 0
+    for l in sorted({k[0] for k in freq}):
+        tot = sum(freq.get((l, p), 0) for p in range(l))
+        decisions += tot
+        if l < 2 or tot < 200:
+            continue
+        t = math.sqrt(math.log(2e9) / (2 * tot))
+        for p in range(l):
+            f = freq.get((l, p), 0) / tot
+            table.append({"offered": l, "position": p, "n": tot, "freq": round(f, 4), "tolerance": round(t, 4)})
+            if abs(f - 1.0 / l) > t:
+                problems.append({"kind": "random-scheduler", "detail": {"what": "position frequency off the uniform law", "offered": l,
+                                 "position": p, "freq": f, "n": tot, "tolerance": t}, "sig": f"random/non-uniform/len{l}"})
+    # URW: every offered position has positive probability
+    for l in sorted({k[0] for k in ufreq}):
+        tot = sum(ufreq.get((l, p), 0) for p in range(l))
+        if tot < 5000:
+            continue
+        for p in range(l):
+            if ufreq.get((l, p), 0) == 0:
+                problems.append({"kind": "random-scheduler", "detail": {"what": "URW never chose this offered position", "offered": l, "position": p, "n": tot},
+                                 "sig": f"random/urw-position-never-chosen/len{l}"})
+    for l, (a, b) in sorted(curc.items()):
+        if b < 200:
+            continue
+        t = math.sqrt(math.log(2e9) / (2 * b))
+        f = a / b
+        table.append({"offered": l, "chooses_current": round(f, 4), "n": b, "tolerance": round(t, 4)})
+        if abs(f - 1.0 / l) > t:
+            problems.append({"kind": "random-scheduler", "detail": {"what": "bias towards/against the current task", "offered": l, "freq": f, "n": b},
+                             "sig": f"random/current-bias/len{l}"})
+    states = trans = 0
+    lem = []
+    wd = vlib.fresh_dir(os.path.join(vlib.WORK, "lemma-randomsched"))
+    r = vlib.run_tlc("RandomSched", "RandomSched.cfg", {}, wd, workers=4, timeout=600)
+    states += r["states"]
+    trans += r["transitions"]
+    lem.append({"lemma": "RandomSched seed protocol", "states": r["states"], "holds": r["ok"]})
+    if not r["ok"]:
+        problems.append({"kind": "tlc-error", "where": "RandomSched", "errors": r["errors"][:5], "sig": "lemma/RandomSched"})
+    totals = {"trace_states": states, "trace_transitions": trans, "leaves_reached": nexec, "programs": len(progs)}
+    extra = {"executions": nexec, "iterations_reproduced_from_their_seed": repro, "decisions_in_frequency_table": decisions,
+             "frequency_table": table[:40], "model_lemmas": lem, "exhaustive": False,
+             "checker_cmd": "tlc -config RandomSched.cfg RandomSched.tla ; vharness enum --mode rand"}
+    spec = {"assume": ["uniformity and independence are measured at fixed seeds (Hoeffding bound, 1e-9 per cell), not model-checked",
+                       "the documented generator is Pcg64Mcg::seed_from_u64(seed) (checked against an independent instance)"]}
+    return finish("C10", tier, t0, spec, totals, [], problems, [{"frequency_rows": table[:6]}], known, extra_cov=extra)
+
+
 def run_lemmas(pid, problems):
     """Model-only checks (binding D) attached to a property; returns (states, transitions, report)."""
     st = tr = 0
@@ -508,6 +608,8 @@ LEMMAS = {
 }
 # anti-vacuity: deliberately broken variants must be refuted (run by `vcheck setup`)
 SELFTESTS = [
+    {"name": "randomsched-mutant-no-reseed", "module": "RandomSched", "cfg": "RandomSched_mut1.cfg", "expect_ok": False, "env": {}},
+    {"name": "randomsched-mutant-data-seed", "module": "RandomSched", "cfg": "RandomSched_mut2.cfg", "expect_ok": False, "env": {}},
     {"name": "dfs-mutant-last-flag", "module": "Dfs", "cfg": "Dfs_mut1.cfg", "expect_ok": False, "env": {}},
     {"name": "dfs-mutant-no-truncate", "module": "Dfs", "cfg": "Dfs_mut2.cfg", "expect_ok": False, "env": {}},
     {"name": "replay-broken-skip-same", "module": "Replay", "cfg": "Replay.cfg", "expect_ok": False,
@@ -522,6 +624,8 @@ def run_property(pid, tier):
         return run_c16(tier)
     if pid == "C09":
         return run_c09(tier)
+    if pid == "C10":
+        return run_c10(tier)
     if pid not in SHUTTLE_PROPS:
         raise vlib.ToolError(f"no check registered for {pid}")
     t0 = time.time()
